@@ -364,7 +364,9 @@ func (ex *Exec) anchorsAfterStore(x *ssa.Store, p PtrV) {
 	} else {
 		name = chanName(x.Addr)
 	}
+	ex.anchorArgTypes = []types.Type{x.Val.Type()}
 	ex.fireAnchors("store", name, []Value{ex.val(x.Val)}, nil, x.Pos())
+	ex.anchorArgTypes = nil
 }
 
 // lock discipline hooks (filled in by the concurrency layer)
